@@ -317,6 +317,20 @@ func verifH_C09_walk() {
 		same = verifEqBytes(bufs[i], bufs2[i])
 	}
 	verifAssert(same, "emitting the same value again yields the same frames")
+	// the header is a value given to Encode too: a packet kept for later (connection state recovery keeps header and
+	// values of every broadcast) is encoded again with the SAME header object
+	// (Encode marks the header it was given as binary and records the attachment count in it - the repository's
+	// own TestEncode expects that - so the second time round the header already says BINARY_EVENT)
+	bufs3, err3 := p.Encode(h, &args)
+	verifAssert(err3 == nil, "encoding a kept packet again, header and all, is accepted")
+	if err3 != nil {
+		return
+	}
+	same = len(bufs3) == len(bufs)
+	for i := 0; same && i < len(bufs); i++ {
+		same = verifEqBytes(bufs[i], bufs3[i])
+	}
+	verifAssert(same, "and yields the same frames")
 	verifReach("end")
 }
 
